@@ -4,6 +4,7 @@ package main
 // bodies into SMT-LIB with one query per obligation.
 
 import (
+	"regexp"
 	"os"
 	"fmt"
 	"go/constant"
@@ -135,6 +136,11 @@ type retSite struct {
 	heap  *Heap
 }
 
+type allocRec struct {
+	blk  *ssa.BasicBlock
+	term string
+}
+
 type Frame struct {
 	e        *Enc
 	fn       *ssa.Function
@@ -150,6 +156,10 @@ type Frame struct {
 	rets     []retSite
 	callOrd  map[string]int
 	curBlock *ssa.BasicBlock
+	// references allocated so far in this frame (block, term): later allocations in
+	// dominated blocks are stated to be larger (a consequence of the $alloc
+	// watermark that the solvers do not always find by themselves)
+	allocRecs []allocRec
 	curReach string
 	heap     *Heap // current
 	con      *Contract
@@ -607,6 +617,56 @@ func floatLit(v constant.Value) string {
 
 // obligations -----------------------------------------------------------------
 
+var reBoundVar = regexp.MustCompile(`\|\?[A-Za-z_]+[0-9]*\|`)
+
+// alphaNorm renames the bound variables of a formula (|?name123|, numbered
+// freshly at every evaluation of a spec expression) in order of appearance.
+func alphaNorm(s string) string {
+	m := map[string]string{}
+	return reBoundVar.ReplaceAllStringFunc(s, func(v string) string {
+		if r, ok := m[v]; ok {
+			return r
+		}
+		r := fmt.Sprintf("|?b%d|", len(m))
+		m[v] = r
+		return r
+	})
+}
+
+// weakenByAssumed: a quantified goal G that the body already assumes under a
+// guard, `(assert (=> X G'))` with G' equal to G up to bound-variable names
+// (an invariant assumed at a loop head and to be shown again at a back edge
+// that did not touch what it speaks about), is replaced by (or X G): with the
+// assumption, X suffices.  Solvers do not recognise the two quantified formulas
+// as the same one after skolemisation and can time out on `A and not A`.
+func weakenByAssumed(body, cond string) string {
+	if !strings.Contains(cond, "(forall ") && !strings.Contains(cond, "(exists ") {
+		return cond
+	}
+	want := alphaNorm(cond)
+	var guards []string
+	for _, line := range strings.Split(body, "\n") {
+		if !strings.HasPrefix(line, "(assert (=> ") || !strings.HasSuffix(line, "))") {
+			continue
+		}
+		rest := line[len("(assert (=> ") : len(line)-2]
+		i := strings.IndexByte(rest, ' ')
+		if i <= 0 || strings.ContainsAny(rest[:i], "()") {
+			continue
+		}
+		if len(rest)-i-1 != len(cond) && !strings.Contains(rest, "|?") {
+			continue
+		}
+		if alphaNorm(rest[i+1:]) == want {
+			guards = append(guards, rest[:i])
+		}
+	}
+	if len(guards) == 0 {
+		return cond
+	}
+	return "(or " + strings.Join(guards, " ") + " " + cond + ")"
+}
+
 func (e *Enc) oblName(base string) string {
 	e.names[base]++
 	if k := e.names[base]; k > 1 {
@@ -630,7 +690,7 @@ func (e *Enc) addObl(kind, detail, reach, cond string, pos token.Pos, src string
 	}
 	var qb strings.Builder
 	qb.WriteString(e.bodyText())
-	fmt.Fprintf(&qb, "(assert %s)\n(assert (not %s))\n", reach, cond)
+	fmt.Fprintf(&qb, "(assert %s)\n(assert (not %s))\n", reach, weakenByAssumed(qb.String(), cond))
 	o.Query = qb.String()
 	o.Bounds = e.bounds.String()
 	e.obls = append(e.obls, o)
@@ -733,7 +793,7 @@ func (e *Enc) addGroup(kind, detail, reach string, names, conds []string, pos to
 	for i, c := range conds {
 		ch := &Obligation{Name: fmt.Sprintf("%s#%s:%s", fnName, kind, names[i]), Kind: kind, Fn: fnName, Src: src, Props: props, Pos: parent.Pos}
 		ch.Name = e.oblName(ch.Name)
-		ch.Query = prefix + fmt.Sprintf("(assert %s)\n(assert (not %s))\n", reach, c)
+		ch.Query = prefix + fmt.Sprintf("(assert %s)\n(assert (not %s))\n", reach, weakenByAssumed(prefix, c))
 		ch.Bounds = parent.Bounds
 		parent.Children = append(parent.Children, ch)
 	}
